@@ -34,6 +34,12 @@ def run_case(ctx, case):
             ta, tb = mixed_twins(*A), mixed_twins(*B)
             if ta and tb:
                 impl(lambda: BINOPS[op](ta[-1], tb[-1]))                   # int / float knots with exact points
+        if op in ("mul", "matmul", "div") and (A[0][0], A[0][-1]) == (B[0][0], B[0][-1]):
+            # unit level tie: the product knot vector
+            kvm = impl(lambda: heavy.MathOperations.knotvector_mul(tuple(A[0]), tuple(B[0])))
+            mk_ = drv.call("ops.mulkv", list(A[0]), list(B[0]))
+            okk = (kvm[0] == "ok") == (mk_[0] == "ok") and (kvm[0] != "ok" or tuple(frac(x) for x in kvm[1]) == tuple(mk_[1][0]))
+            l2(rec, "ops.mulkv", case, errkind(kvm) if kvm[0] != "ok" else ser(tuple(frac(x) for x in kvm[1])), mk_, okk)
         r = impl(lambda: BINOPS[op](ca, cb))
         if curve_state(ca) != sa or curve_state(cb) != sb:
             rec.violation("operator %s modified an operand" % op, case)
